@@ -74,15 +74,15 @@ def cases(draw):
     cons = []
     for i in range(m):
         role = ['active', 'inactive', 'weak', 'redundant', 'active'][draw(st.integers(0, 4))]
-        d = onp.array(draw(st.lists(st.floats(-1, 1), min_size=n, max_size=n)))
+        d = onp.array(draw(st.lists(gen.floats(-1, 1), min_size=n, max_size=n)))
         if onp.linalg.norm(d) < 1e-2:
             d = d + 1.0
         d = d / onp.linalg.norm(d)
-        off = draw(st.floats(0.1, 1.0))
+        off = draw(gen.floats(0.1, 1.0))
         cons.append({'role': role, 'dir': d.tolist(), 'off': off, 'mult': draw(gen.logfloat(-1, 1))})
-    x0 = onp.array(draw(st.lists(st.floats(-2, 2), min_size=n, max_size=n)))
-    lam0 = [draw(st.floats(0.0, 2.0)) if draw(st.booleans()) else 0.0 for _ in range(m)]
-    s = {'second': draw(st.booleans()), 'nlow': draw(st.integers(0, 4)), 'pen': draw(st.floats(1.0, 10.0)), 'dec': draw(st.floats(0.3, 0.9)),
+    x0 = onp.array(draw(st.lists(gen.floats(-2, 2), min_size=n, max_size=n)))
+    lam0 = [draw(gen.floats(0.0, 2.0)) if draw(st.booleans()) else 0.0 for _ in range(m)]
+    s = {'second': draw(st.booleans()), 'nlow': draw(st.integers(0, 4)), 'pen': draw(gen.floats(1.0, 10.0)), 'dec': draw(gen.floats(0.3, 0.9)),
          'tol_exp': draw(st.integers(-10, -6)), 'kexp': draw(st.integers(-1, 1)), 'warm': draw(st.booleans())}
     return {'n': n, 'm': m, 'coef': coef, 'ckind': ckind, 'cons': cons, 'x0': x0.tolist(), 'lam0': lam0, 'settings': s}
 
@@ -251,7 +251,7 @@ def bound_cases(draw):
     coef = draw(obj.coefficients(n, family=fam, cond_exp=(0.0, 2.0)))
     nc = draw(st.integers(1, n))
     idx = sorted(draw(st.lists(st.integers(0, n - 1), min_size=nc, max_size=nc, unique=True)))
-    x0 = [abs(v) + 0.1 for v in draw(st.lists(st.floats(-1, 1), min_size=n, max_size=n))]
+    x0 = [abs(v) + 0.1 for v in draw(st.lists(gen.floats(-1, 1), min_size=n, max_size=n))]
     return {'n': n, 'coef': coef, 'idx': idx, 'x0': x0, 'css': [1.0, 0.05, 4.0][draw(st.integers(0, 2))], 'ps': draw(st.booleans()),
             'tol_exp': draw(st.integers(-9, -7)), 'warm': draw(st.booleans())}
 
